@@ -5,6 +5,7 @@ import (
 	"fmt"
 	"io"
 	"math/big"
+	"os"
 	"os/exec"
 	"strings"
 	"time"
@@ -41,6 +42,12 @@ type Solver struct {
 	defined map[*Term]bool
 	vars    []*Term
 	inPath  bool
+	// scope stack: one scope per trace record of the current path; kept
+	// between paths so that a path sharing a decision prefix with the
+	// previous one re-uses the solver state of that prefix
+	defsAt [][]*Term
+	nvarAt []int
+	baseDefs []*Term
 	Queries int
 	Time    time.Duration
 	Errors  int
@@ -49,6 +56,8 @@ type Solver struct {
 	script     []string
 	keepScript bool
 	TimeoutMs  int
+	ModelTime  time.Duration
+	Models     int
 }
 
 func NewSolver(kind SolverKind, timeoutMs int) (*Solver, error) {
@@ -103,9 +112,20 @@ func (s *Solver) Close() {
 	s.cmd = nil
 }
 
+var dumpFile *os.File
+
 func (s *Solver) raw(line string) {
+	if dumpFile != nil {
+		dumpFile.WriteString(line + "\n")
+	}
 	io.WriteString(s.in, line)
 	io.WriteString(s.in, "\n")
+}
+
+func init() {
+	if p := os.Getenv("GOSMT_DUMP"); p != "" {
+		dumpFile, _ = os.Create(p)
+	}
 }
 
 func (s *Solver) send(line string) {
@@ -115,27 +135,75 @@ func (s *Solver) send(line string) {
 	s.raw(line)
 }
 
-// BeginPath opens the per-path scope.
-func (s *Solver) BeginPath() {
-	if s.inPath {
-		panic("BeginPath: already in path")
-	}
-	s.inPath = true
-	s.script = s.script[:0]
-	s.raw("(push 1)")
+// Level is the number of open scopes.
+func (s *Solver) Level() int { return len(s.defsAt) }
+
+// PushScope opens one scope (one per trace record).
+func (s *Solver) PushScope() {
+	s.defsAt = append(s.defsAt, nil)
+	s.nvarAt = append(s.nvarAt, len(s.vars))
+	s.send("(push 1)")
 }
 
-// EndPath closes the per-path scope and forgets all definitions.
-func (s *Solver) EndPath() {
-	if !s.inPath {
+// PopTo closes scopes down to level k and forgets what was defined in them.
+func (s *Solver) PopTo(k int) {
+	n := len(s.defsAt) - k
+	if n <= 0 {
 		return
 	}
-	s.inPath = false
-	s.raw("(pop 1)")
+	s.raw(fmt.Sprintf("(pop %d)", n))
+	for i := len(s.defsAt) - 1; i >= k; i-- {
+		for _, t := range s.defsAt[i] {
+			delete(s.defined, t)
+		}
+	}
+	s.vars = s.vars[:s.nvarAt[k]]
+	s.defsAt = s.defsAt[:k]
+	s.nvarAt = s.nvarAt[:k]
+	if s.keepScript {
+		// rebuild transcript: drop everything after the k-th push
+		cnt := 0
+		cut := len(s.script)
+		for i, l := range s.script {
+			if l == "(push 1)" {
+				if cnt == k {
+					cut = i
+					break
+				}
+				cnt++
+			}
+		}
+		s.script = s.script[:cut]
+	}
+}
+
+// BeginPath / EndPath bracket one path (scopes persist between paths).
+func (s *Solver) BeginPath() { s.inPath = true }
+func (s *Solver) EndPath()   { s.inPath = false }
+
+// ResetAll drops every scope (used when the term factory is replaced).
+func (s *Solver) ResetAll() {
+	s.PopTo(0)
+	// level-0 definitions
+	s.raw("(reset)")
+	if s.Kind == CVC5 {
+		s.raw("(set-logic QF_BV)")
+	}
+	s.raw("(set-option :produce-models true)")
 	for k := range s.defined {
 		delete(s.defined, k)
 	}
 	s.vars = s.vars[:0]
+	s.script = s.script[:0]
+}
+
+func (s *Solver) noteDef(t *Term) {
+	s.defined[t] = true
+	if n := len(s.defsAt); n > 0 {
+		s.defsAt[n-1] = append(s.defsAt[n-1], t)
+	} else {
+		s.baseDefs = append(s.baseDefs, t)
+	}
 }
 
 // define makes sure t (and its sub-terms) are known to the solver.
@@ -147,7 +215,7 @@ func (s *Solver) define(t *Term) {
 	case OpConst:
 		return
 	case OpVar:
-		s.defined[t] = true
+		s.noteDef(t)
 		s.vars = append(s.vars, t)
 		s.send(fmt.Sprintf("(declare-const %s %s)", t.name, sortOf(t.w)))
 		return
@@ -155,7 +223,7 @@ func (s *Solver) define(t *Term) {
 	for i := 0; i < t.n; i++ {
 		s.define(t.a[i])
 	}
-	s.defined[t] = true
+	s.noteDef(t)
 	s.send(fmt.Sprintf("(define-fun %s () %s %s)", t.ref(), sortOf(t.w), t.body()))
 }
 
@@ -272,6 +340,7 @@ func (s *Solver) Model(extra *Term, negate bool) (map[string]*big.Int, bool) {
 	t0 := time.Now()
 	v := s.readVerdict()
 	s.Time += time.Since(t0)
+	s.ModelTime += time.Since(t0)
 	s.Queries++
 	if v != Sat {
 		s.raw("(pop 1)")
@@ -282,7 +351,10 @@ func (s *Solver) Model(extra *Term, negate bool) (map[string]*big.Int, bool) {
 		names = append(names, t.name)
 	}
 	s.raw("(get-value (" + strings.Join(names, " ") + "))")
+	t1 := time.Now()
 	txt, err := s.readSexp()
+	s.ModelTime += time.Since(t1)
+	s.Models++
 	s.raw("(pop 1)")
 	if err != nil || strings.Contains(txt, "(error") {
 		s.Errors++
@@ -389,7 +461,13 @@ func (s *Solver) Script(extra *Term, negate bool) []string {
 		out = append(out, "(assert "+lit+")")
 	}
 	out = append(out, "(check-sat)")
-	return out
+	flat := out[:0:0]
+	for _, l := range out {
+		if l != "(push 1)" {
+			flat = append(flat, l)
+		}
+	}
+	return flat
 }
 
 // OneShot runs a stand-alone script in a fresh scope of this solver.
